@@ -2,6 +2,8 @@
 //! `verif` hooks) and records NDJSON traces that the TLA+ trace specifications check.
 
 mod ack;
+mod chandrv;
+mod deploydrv;
 mod drivers;
 mod storedrv;
 mod tree;
@@ -127,6 +129,8 @@ fn main() {
         "explore" => drivers::explore(&args),
         "ack" => ack::run(&args),
         "store" => storedrv::run(&args),
+        "deploy" => deploydrv::run(&args),
+        "chan" => chandrv::run(&args),
         "tree" => drivers::trees(&args),
         _ => {
             eprintln!("usage: harness <random|replay|tree> --models F --out F [--seed N] ...");
